@@ -349,11 +349,8 @@ def run(chk: Check) -> int:
     nodes = {k: unq(v) for k, v in g.nodes.items()}
     paths = g.bfs_paths()
     chk.extra["graph_paths"] = len(paths)
-    budget = 1200 if quick else len(paths)
-    if len(paths) > budget:
-        paths = rnd.sample(paths, budget)
-    else:
-        chk.exhaustive = True
+    budget = 1200 if quick else len(paths) + 20000
+    paths, chk.exhaustive = tlc.choose_paths(g, paths, budget, rnd)     # tree paths + non-tree edges, stratified (harness/tlc.py)
     behs = [[nodes[i] for i in p] for p in paths]
     replay_many(chk, behs, 1, notes)
     total += len(behs)
